@@ -4,7 +4,8 @@
 // operation on mutex::_requests (load / store / exchange / compare_exchange) first yields to the
 // controller.  Of the library's marks only "m_pub" (the window after the publishing CAS, where no atomic
 // operation follows) and the BLOCK before flag.wait are kept; scenario points: "cs", "step".
-// ops:  1 kind a1 r1 a2 r2 ...   contender: kind 0 coroutine / 1 plain thread; per round: acquisition
+// ops:  1 kind a1 r1 a2 r2 ...   contender: kind 0 coroutine / 1 plain thread / 2 plain thread requesting through
+//                                 co_awaiter::await_suspend(resume_fn, ctx); per round: acquisition
 //                                 a = 0 lock (co_await lock() / lock().wait()), 1 try_lock;
 //                                 release r = 0 destruction of the ownership, 1 release() discarded,
 //                                 2 co_await release() (plain thread: same as 1)
@@ -197,11 +198,29 @@ static async<void> coro_body(Ctx &cx, int id) {
     cx.done[id] = 1;
 }
 
+// kind 2: the request goes through the callback overload co_awaiter::await_suspend(resume_fn, ctx) (what
+// cocls::parallel and the thread pool use); the callback wakes this thread the way sync_awaiter does
+struct CbFlag {
+    std::atomic<bool> flag{false};
+    static suspend_point<void> wake(awaiter *, void *u) noexcept {
+        static_cast<CbFlag *>(u)->flag.store(true);
+        return {};
+    }
+};
+
 static void plain_body(Ctx &cx, int id) {
+    bool via_callback = cx.decl[id].kind == 2;
     for (Round r : cx.decl[id].rounds) {
         cx.step(id);
         mutex::ownership own;
-        if (r.acq == 0) {
+        if (r.acq == 0 && via_callback) {
+            co_awaiter<mutex> aw = cx.mx.lock();
+            CbFlag f;
+            if (!aw.await_ready()) {
+                if (aw.await_suspend(&CbFlag::wake, &f)) ctl::block_until("flagwait", [&] { return f.flag.load(); });
+            }
+            own = aw.await_resume();
+        } else if (r.acq == 0) {
             own = cx.mx.lock().wait();
         } else {
             own = cx.mx.try_lock();
@@ -225,7 +244,7 @@ static void plain_body(Ctx &cx, int id) {
 
 static bool parse_decl(const std::vector<long> &op, Decl &d) {
     if (op.size() < 2 || op[0] != 1) return false;
-    if (op[1] != 0 && op[1] != 1) return false;
+    if (op[1] != 0 && op[1] != 1 && op[1] != 2) return false;
     if ((op.size() - 2) % 2) return false;
     d.kind = op[1];
     for (size_t i = 2; i + 1 < op.size(); i += 2) {
